@@ -355,6 +355,7 @@ func runC17(r *Run) {
 		}
 	}
 	c17SharedAddresses(r)
+	c17AfterErrors(r)
 	// long inputs: kept elements at every residue of the index modulo 64 (word-sized bookkeeping must not lose any)
 	{
 		long := make([]S1, 150)
